@@ -477,10 +477,10 @@ def run(chk, tier):
         (r'ColumnTypeIter::', 'Overflow:Add', r'Add usize', 'strum-generated EnumIter: idx / back_idx are bounded by the variant count'),
         (r'histogram::sample_frequency$', 'Overflow:Add', r'Add u64', 'a frequency counter: one increment per sample, at most max_samples'),
         (r'render_status_cell$', 'Overflow:Sub', r'Sub usize', 'total_recv ≤ total_sent (C05.R1 counter effect table)'),
-        (r'run_frontend::\{closure#0\}$', 'unwrap', r'expect', 'the panic hook restores the terminal; a failure there happens while already panicking'),
+        (r'run_frontend::\{closure#\d+\}$', 'unwrap', r'expect', 'the panic hook restores the terminal; a failure there happens while already panicking'),
         (r'ColumnType::width$', 'Overflow:Add', r'Add u16', 'display width of an embedded locale string (a few characters) + 2'),
         (r'table::format_details$', 'Overflow:Add', r'Add usize', 'address index + 1: the index is at most the number of addresses of one hop (next_hop_address guard)'),
-        (r'table::render::\{closure#3\}$|render::\{closure#3\}$', 'Overflow:Add', r'Add usize', 'enumerate() index of an in-memory list + 1'),
+        (r'render::chart::render::\{closure#\d+\}$', 'Overflow:Add', r'Add usize', 'enumerate() index of an in-memory list + 1'),
         (r'TuiApp::(next|previous)_flow$', 'unwrap', r'unwrap', 'the selected flow is in flow_counts: flow mode is entered with FlowId(1) under flow_count() > 0 (R2 toggle_flows), ids are taken from flow_counts (R2 writers), '
                                                                'clamp_selected_flow re-validates against the same snapshot flow_counts is built from (R3), and flow_counts lists every registered flow (≤ max_flows: C15.R4)'),
         (r'Columns::move_down$', 'api', 'remove', 'Vec::remove(index) under its own guard index < len'),
